@@ -327,3 +327,64 @@ def propagate_without_polarization_delays_and_attenuates():
         prove(cls[-22:] + ":values-copied-then-filtered-once", And(eq(out.values[i], vals[i]), len(filt) == 1, filt[0][0] is out))
         prove(cls[-22:] + ":input-unchanged", And(eq(sig.times[i], times[i]), Not(shares(out, sig))))
         prove(cls[-22:] + ":nothing-to-do", path.propagate() is None)
+
+
+# ---------------------------------------------------------------------------
+# uniform-ice paths: attenuation by stepping along straight segments.  The product over a data-dependent number of
+# steps is outside the executor's subset; the horizontal-segment branch is proved, the rest is a bounded stand-in.
+# ---------------------------------------------------------------------------
+
+UPATH = "pyrex.ray_tracing.UniformRayTracePath"
+
+
+@harness(clause="attenuation-range")
+def uniform_path_horizontal_segment_attenuation():
+    L = ufunc("L_att")
+
+    ice = new("pyrex.ice_model.UniformIce", 1.5)
+    use_stub("pyrex.ice_model.AntarcticIce.attenuation_length", lambda self, z, f: np.array([[L(z[0], f[0])]]))
+    x0, y0, x1, y1, z = real("x0"), real("y0"), real("x1"), real("y1"), real("z", -3000, 0)
+    f = real("f", -1e9, 1e9)
+    assume(L(z, absval(f)) > 0)
+    path = obj(UPATH, ice=ice, _lazy__points=[np.array([x0, y0, z]), np.array([x1, y1, z])])
+    a = path.attenuation(np.array([f]))
+    d = np.sqrt((x1 - x0) ** 2 + (y1 - y0) ** 2)
+    prove("one-factor-per-frequency", len(a) == 1)
+    prove("exp(-length/L)", eq(a[0], exp(-d / L(z, absval(f)))))
+    prove("in-(0,1]", And(a[0] > 0, a[0] <= 1))
+
+
+@harness(clause="bounded-uniform-attenuation", bounded=40, label="B")
+def uniform_path_attenuation_sampled():
+    """every solution of the uniform tracer (direct and surface-reflected, going up or down): the attenuation factor is
+    in (0, 1], does not increase with |f| when the attenuation length does not, is even in f, and equals
+    exp(-sum over fine steps of ds / L_att) computed independently"""
+    ice = new("pyrex.ice_model.UniformIce", real("index", 1.3, 1.8))
+    p = np.array([real("x0", -300, 300), real("y0", -300, 300), real("z0", -2000, -1)])
+    q = np.array([real("x1", -300, 300), real("y1", -300, 300), real("z1", -2000, -1)])
+    tracer = new("pyrex.ray_tracing.UniformRayTracer", p, q, ice_model=ice)
+    fs = np.array([10 ** real("log10_f_low", 6, 8), 10 ** real("log10_f_mid", 8, 8.8), 10 ** real("log10_f_high", 8.8, 9.3)])
+    sols = tracer.solutions
+    prove("a-direct-solution-exists", len(sols) >= 1)
+    ok_range, ok_even, ok_value, ok_mono = True, True, True, True
+    for path in sols:
+        att = path.attenuation(fs)
+        ok_range = ok_range and bool(np.all((att > 0) & (att <= 1 + 1e-12)))
+        ok_even = ok_even and bool(np.allclose(att, path.attenuation(-fs), rtol=1e-12))
+        pts = [np.asarray(x, dtype=float) for x in path._points]
+        expo = np.zeros(len(fs))
+        for a_, b_ in zip(pts[:-1], pts[1:]):
+            n = 2000
+            ts = (np.arange(n) + 0.5) / n
+            zs = a_[2] + ts * (b_[2] - a_[2])
+            seg = float(np.linalg.norm(b_ - a_))
+            for k in range(len(fs)):
+                expo[k] += float(np.sum(seg / n / np.asarray(ice.attenuation_length(zs, float(fs[k])))))
+        ok_value = ok_value and bool(np.allclose(att, np.exp(-expo), rtol=2e-2))
+        ls = [ice.attenuation_length(-500.0, f_) for f_ in fs]
+        if ls[0] >= ls[1] >= ls[2]:
+            ok_mono = ok_mono and bool(att[0] >= att[1] * (1 - 1e-9) and att[1] >= att[2] * (1 - 1e-9))
+    prove("in-(0,1]", ok_range)
+    prove("even-in-frequency", ok_even)
+    prove("equals-exp-of-minus-the-path-integral-of-ds-over-L", ok_value)
+    prove("not-increasing-with-frequency", ok_mono)
